@@ -1253,6 +1253,30 @@ func init() {
 	})
 	intercepts["(*net/http.Server).Shutdown"] = rec("http.Shutdown", func(ex *Exec) Value { return nilErr() })
 	intercepts["(*net/http.Server).Close"] = rec("http.Close", func(ex *Exec) Value { return nilErr() })
+	vx("GoStarted", func(ex *Exec, fr *Frame, a []Value, s ssa.Instruction) Value {
+		return ex.tt.BV(uint64(len(ex.W.goLog)), 64)
+	})
+	vx("GoStartedName", func(ex *Exec, fr *Frame, a []Value, s ssa.Instruction) Value {
+		return ex.tt.Str(ex.W.goLog[ex.concreteInt(a[0], "index")].name)
+	})
+	// the receiver (or first argument) of the i-th launched goroutine, boxed like the harness boxes its own pointer
+	vx("GoStartedOn", func(ex *Exec, fr *Frame, a []Value, s ssa.Instruction) Value {
+		g := ex.W.goLog[ex.concreteInt(a[0], "index")]
+		want := a[1]
+		if iv, ok := want.(*IfaceV); ok {
+			want = iv.v
+		}
+		got := g.recv
+		if iv, ok := got.(*IfaceV); ok {
+			got = iv.v
+		}
+		gp, ok1 := got.(*PtrV)
+		wp, ok2 := want.(*PtrV)
+		if !ok1 || !ok2 || gp.obj == nil || wp.obj == nil {
+			return ex.tt.Bool(false)
+		}
+		return ex.tt.Bool(gp.obj == wp.obj && pathsOverlap(gp.path, wp.path) && len(gp.path) == len(wp.path))
+	})
 	vx("Lifecycle", func(ex *Exec, fr *Frame, a []Value, s ssa.Instruction) Value {
 		return ex.tt.Str(strings.Join(ex.W.lifecycle, ","))
 	})
